@@ -35,7 +35,7 @@ def lock_rule(ctx, R, group, table, allow, label):
                 ctx.check(False, R, key, '%s of %s without %s' % ('write' if mode == 'w' else 'read', bf, label), f.loc(i))
         if entry and f.kind not in ('ctor', 'dtor') and f.bname not in allow:
             seen = set()
-            for (chain, bf, mode, req) in C.missing[f.id]:
+            for (chain, bf, mode, req, _inner) in C.missing[f.id]:
                 if len(chain) == 1:
                     continue
                 path = ' -> '.join(g.short for g, _ in chain)
@@ -140,7 +140,19 @@ def run(ctx, extra_defs=()):
                 if any(last.endswith(s) for s in STORED):
                     out.append((i, last))
         return out
-    for f in (ro, P.fn(EL + '::cancel_timer_event')):
+    def same_class_closure(f):
+        seen, todo = {f.id: f}, [f]
+        while todo:
+            g = todo.pop()
+            for i in g.calls():
+                h = P.fns.get(g.N(i).get('callee'))
+                if h is not None and h.record == f.record and h.id not in seen and h.entry is not None:
+                    seen[h.id] = h
+                    todo.append(h)
+        return list(seen.values())
+    # the function that queues due timers: run_one itself or a helper of the class it calls
+    ro_timer = [g for g in same_class_closure(ro) if [x for x in stored_ctor_sites(g) if x[1].endswith('timer_event::h')]]
+    for f in ro_timer + [P.fn(EL + '::cancel_timer_event')]:
         for k, (i, last) in enumerate([x for x in stored_ctor_sites(f) if x[1].endswith('timer_event::h')]):
             er = q.field_calls(f, 'event_loop_impl::timer_events_', 'erase')
             idxw = [w for w in f.all_nodes() if f.N(w)['k'] in ('BinaryOperator', 'CXXOperatorCallExpr') and f.N(w).get('op') == '=' and
@@ -193,12 +205,28 @@ def run(ctx, extra_defs=()):
     ctx.check(bool(cc) and bool(cf) and cl.point_of(cf[0])[0] not in reach, R4, 'basic_io_device::close:cancel-before-close', 'descriptor closed with handlers still registered', cl.where)
 
     # ---- R5
-    nowv = set()
-    for i in ro.all_nodes():
-        if ro.N(i)['k'] == 'DeclStmt':
-            for d in ro.N(i)['decls']:
-                if d.get('init') is not None and any(ro.bcallee(j) == 'booster::ptime::now' for j in ro.calls(d['init'])):
-                    nowv.add(d['ref'])
+    def now_locals(f):
+        out = set()
+        for i in f.all_nodes():
+            if f.N(i)['k'] == 'DeclStmt':
+                for d in f.N(i)['decls']:
+                    if d.get('init') is not None and any(f.bcallee(j) == 'booster::ptime::now' for j in f.calls(d['init'])):
+                        out.add(d['ref'])
+        return out
+    ctx.check(len(ro_timer) == 1, R5, 'run_one:single-timer-dispatch', 'expected exactly one function under run_one that dispatches due timers', ro.where)
+    ro0 = ro
+    ro = ro_timer[0] if ro_timer else ro
+    nowv = now_locals(ro)
+    if ro is not ro0:
+        # the time stamp may be handed to the helper: a parameter that every caller binds to its own plain ptime::now() local
+        callers = [(g, i) for g in same_class_closure(ro0) for i in g.calls() if g.N(i).get('callee') == ro.id]
+        for k, prm in enumerate(ro.params):
+            ok = bool(callers)
+            for (g, i) in callers:
+                a = g.args(i)
+                ok = ok and k < len(a) and g.ref_of(a[k]) in now_locals(g)
+            if ok:
+                nowv.add(prm['ref'])
     ctx.check(len(nowv) == 1, R5, 'run_one:now-from-ptime::now', 'no local time stamp taken from ptime::now()', ro.where)
 
     def due(atom, pol):
@@ -219,7 +247,7 @@ def run(ctx, extra_defs=()):
         return (op in ('<', '<=') and pol is True) or (op in ('>', '>=') and pol is False)
     g_due = ro.gate_edges(due)
     tsites = [x for x in stored_ctor_sites(ro) if x[1].endswith('timer_event::h')]
-    ctx.check(len(tsites) == 1, R5, 'run_one:single-timer-dispatch', 'expected exactly one timer dispatch site', ro.where)
+    ctx.check(len(tsites) == 1, R5, 'run_one:single-timer-dispatch-site', 'expected exactly one timer dispatch site', ro.where)
     for (i, _) in tsites:
         ctx.check(ro.only_through(i, g_due), R5, 'run_one:timer-dispatch-only-when-due', 'a timer handler can be queued before its deadline', ro.loc(i))
         # the dispatched timer is the earliest one
@@ -233,6 +261,7 @@ def run(ctx, extra_defs=()):
         e = ro.strip(ro.args(i)[1])
         ctx.check(ro.N(e)['k'] in ('CXXTemporaryObjectExpr', 'CXXConstructExpr') and not ro.args(e), R5, 'run_one:timer-success-code', 'due timer is not completed with success', ro.loc(i))
 
+    ro = ro0
     # ---- R6 handler linearity over booster aio
     aiofns = [f for f in P.fns.values() if f.file.startswith(REPO + '/booster/lib/aio/src/')]
     summ = linear.compute_summaries(P, aiofns)
